@@ -6,8 +6,8 @@
 (* node - messages AND its own timers - is dropped), timers as                *)
 (* enabled-whenever actions (any timeout draw is allowed), client submits.    *)
 (* One action per handler / API call; parameters are the environment's        *)
-(* choices and appear in TLC's dot-dump edge labels, from which the harness   *)
-(* replays behaviours on the real objects.                                    *)
+(* choices; the harness replays behaviours of this model (state-graph dump,   *)
+(* error traces) on the real objects.                                         *)
 EXTENDS RaftCore, RaftContract, Bags
 
 CONSTANTS MaxTerm,     \* elections are started only below this term
@@ -16,18 +16,20 @@ CONSTANTS MaxTerm,     \* elections are started only below this term
           MaxMsgs,     \* state constraint: messages in flight
           MaxCrash,    \* number of Crash actions
           Loss,        \* TRUE: the network may lose any message in flight
-          TOCode       \* 0: any node may time out; else decimal digits d1 d2 ..: the k-th election timeout overall is
-                       \* by node dk (scenario-guided bounded runs, e.g. sensitivity)
+          TOCode,      \* 0: any node may time out; else decimal digits d1 d2 ..: the k-th election
+                       \* timeout overall is by node dk (scenario-guided bounded runs)
+          Guide        \* <<>>: free; else the k-th step overall must match Guide[k] (directed search
+                       \* for deep scenarios): <<"T",n>> <<"H",n>> <<"S",n>> <<"D",type,src,dst>>
 
 VARIABLES nd,        \* node -> node record (RaftCore)
           msgs,      \* bag of in-flight messages
           crashed,   \* set of crashed nodes
           nops,      \* client commands submitted so far
           ncrash,
-          nto,       \* election timeouts fired so far (stays 0 when TOCode = 0)
+          gk,        \* guide position: timeouts so far (TOCode) / steps so far (Guide); else 0
           ldr, cmt, futs    \* contract history (RaftContract)
 
-vars == <<nd, msgs, crashed, nops, ncrash, nto, ldr, cmt, futs>>
+vars == <<nd, msgs, crashed, nops, ncrash, gk, ldr, cmt, futs>>
 
 RECURSIVE Digits(_)
 Digits(x) == IF x = 0 THEN <<>> ELSE Append(Digits(x \div 10), x % 10)
@@ -36,11 +38,16 @@ TOSeq == Digits(TOCode)
 RECURSIVE SeqBag(_)
 SeqBag(q) == IF q = <<>> THEN EmptyBag ELSE SetToBag({Head(q)}) (+) SeqBag(Tail(q))
 
+\* d = descriptor of the step being taken
+G(d) == IF Guide # <<>> THEN gk < Len(Guide) /\ Guide[gk + 1] = d /\ gk' = gk + 1
+        ELSE IF TOSeq # <<>> /\ d[1] = "T" THEN gk < Len(TOSeq) /\ TOSeq[gk + 1] = d[2] /\ gk' = gk + 1
+        ELSE gk' = gk
+
 Init ==
     /\ nd = [n \in Nodes |-> InitNode]
     /\ msgs = EmptyBag
     /\ crashed = {}
-    /\ nops = 0 /\ ncrash = 0 /\ nto = 0
+    /\ nops = 0 /\ ncrash = 0 /\ gk = 0
     /\ ldr = {} /\ cmt = {} /\ futs = {}
 
 \* node n ran a handler with result r (RaftCore result record)
@@ -55,55 +62,63 @@ Step(n, r, bag) ==
 Timeout(n) ==
     /\ n \notin crashed /\ nd[n].et = 1
     /\ nd[n].role # "L" /\ nd[n].term < MaxTerm
-    /\ IF TOSeq = <<>> THEN nto' = nto
-       ELSE nto < Len(TOSeq) /\ TOSeq[nto + 1] = n /\ nto' = nto + 1
+    /\ G(<<"T", n>>)
     /\ Step(n, OnTimeout(nd[n], n), msgs)
     /\ UNCHANGED <<crashed, nops, ncrash>>
 
 Heartbeat(n) ==
     /\ n \notin crashed /\ nd[n].hb = 1
+    /\ G(<<"H", n>>)
     /\ Step(n, OnHeartbeat(nd[n], n), msgs)
-    /\ UNCHANGED <<crashed, nops, ncrash, nto>>
+    /\ UNCHANGED <<crashed, nops, ncrash>>
 
 Deliver(m) ==
     /\ BagIn(m, msgs) /\ m.dst \notin crashed
+    /\ G(<<"D", m.type, m.src, m.dst>>)
     /\ Step(m.dst, OnMsg(nd[m.dst], m.dst, m), msgs (-) SetToBag({m}))
-    /\ UNCHANGED <<crashed, nops, ncrash, nto>>
+    /\ UNCHANGED <<crashed, nops, ncrash>>
 
 \* lost in the network (link loss / partition at send time)
 Drop(m) ==
     /\ Loss /\ BagIn(m, msgs)
+    /\ G(<<"X", m.type, m.src, m.dst>>)
     /\ msgs' = msgs (-) SetToBag({m})
-    /\ UNCHANGED <<nd, crashed, nops, ncrash, nto, ldr, cmt, futs>>
+    /\ UNCHANGED <<nd, crashed, nops, ncrash, ldr, cmt, futs>>
 
 \* delivered to a crashed node: Event.invoke drops it
 DeliverCrashed(m) ==
     /\ BagIn(m, msgs) /\ m.dst \in crashed
+    /\ G(<<"D", m.type, m.src, m.dst>>)
     /\ msgs' = msgs (-) SetToBag({m})
-    /\ UNCHANGED <<nd, crashed, nops, ncrash, nto, ldr, cmt, futs>>
+    /\ UNCHANGED <<nd, crashed, nops, ncrash, ldr, cmt, futs>>
 
 \* a timer of a crashed node fires: Event.invoke drops it, nothing re-arms it
 LoseTimer(n, w) ==
     /\ n \in crashed
+    /\ G(<<"L", n>>)
     /\ \/ w = "et" /\ nd[n].et = 1 /\ nd' = [nd EXCEPT ![n].et = 0]
        \/ w = "hb" /\ nd[n].hb = 1 /\ nd' = [nd EXCEPT ![n].hb = 0]
-    /\ UNCHANGED <<msgs, crashed, nops, ncrash, nto, ldr, cmt, futs>>
+    /\ UNCHANGED <<msgs, crashed, nops, ncrash, ldr, cmt, futs>>
 
+\* RaftNode.submit is a direct call on the object: it works whether or not the node is "crashed"
 Submit(n) ==
     /\ nops < MaxOps /\ nd[n].role = "L" /\ Len(nd[n].log) < MaxLog
+    /\ G(<<"S", n>>)
     /\ nops' = nops + 1
     /\ Step(n, OnSubmit(nd[n], nops + 1), msgs)
-    /\ UNCHANGED <<crashed, ncrash, nto>>
+    /\ UNCHANGED <<crashed, ncrash>>
 
 Crash(n) ==
     /\ ncrash < MaxCrash /\ n \notin crashed
+    /\ G(<<"C", n>>)
     /\ crashed' = crashed \cup {n} /\ ncrash' = ncrash + 1
-    /\ UNCHANGED <<nd, msgs, nops, nto, ldr, cmt, futs>>
+    /\ UNCHANGED <<nd, msgs, nops, ldr, cmt, futs>>
 
 Restart(n) ==
     /\ n \in crashed
+    /\ G(<<"R", n>>)
     /\ crashed' = crashed \ {n}
-    /\ UNCHANGED <<nd, msgs, nops, ncrash, nto, ldr, cmt, futs>>
+    /\ UNCHANGED <<nd, msgs, nops, ncrash, ldr, cmt, futs>>
 
 Next ==
     \/ \E n \in Nodes : Timeout(n) \/ Heartbeat(n) \/ Submit(n) \/ Crash(n) \/ Restart(n)
@@ -114,6 +129,7 @@ Spec == Init /\ [][Next]_vars
 
 Bounded == BagCardinality(msgs) <= MaxMsgs
 Perms == Permutations(Nodes)
+NoGuide == <<>>
 
 -----------------------------------------------------------------------------
 \* contract (RaftContract) instantiated on the model state
@@ -156,4 +172,20 @@ Iota(k) == IF k = 0 THEN <<>> ELSE Append(Iota(k - 1), k)
 Settled == /\ \A n \in Nodes : nd[n].app = Iota(nops)
            /\ \A op \in 1..nops : <<op, op, op>> \in futs
 Progress == <>[]Settled
+
+-----------------------------------------------------------------------------
+(* Directed scenario (5 nodes) for "stale_term_ae_response": an AppendEntries  *)
+(* success answered to n1 while it led term 1 is delivered after n1 has been  *)
+(* re-elected in term 3 with a rewritten log; it counts towards the commit of  *)
+(* a term-3 entry that only 2 of 5 nodes hold; n3 is then elected in term 4    *)
+(* without it.                                                                 *)
+StaleGuide == <<
+    <<"T", 1>>, <<"D", "RV", 1, 2>>, <<"D", "RV", 1, 3>>, <<"D", "RVR", 2, 1>>, <<"D", "RVR", 3, 1>>,
+    <<"S", 1>>, <<"S", 1>>, <<"H", 1>>, <<"D", "AE", 1, 2>>,
+    <<"T", 3>>, <<"D", "RV", 3, 4>>, <<"D", "RV", 3, 5>>, <<"D", "RVR", 4, 3>>, <<"D", "RVR", 5, 3>>,
+    <<"S", 3>>, <<"H", 3>>, <<"D", "AE", 3, 1>>, <<"D", "AE", 3, 4>>, <<"D", "AER", 1, 3>>, <<"D", "AER", 4, 3>>,
+    <<"T", 1>>, <<"D", "RV", 1, 4>>, <<"D", "RV", 1, 5>>, <<"D", "RVR", 4, 1>>, <<"D", "RVR", 5, 1>>,
+    <<"S", 1>>, <<"D", "AER", 2, 1>>, <<"H", 1>>, <<"D", "AE", 1, 4>>, <<"D", "AER", 4, 1>>,
+    <<"D", "RV", 1, 3>>, <<"T", 3>>, <<"D", "RV", 3, 2>>, <<"D", "RV", 3, 5>>,
+    <<"D", "RVR", 2, 3>>, <<"D", "RVR", 5, 3>> >>
 =============================================================================
